@@ -21,6 +21,11 @@ def configs(tier):
     out.append(('pending opens min=%d max=%d qlen=%d' % (mn, mx, ql),
                 {'min': mn, 'max': mx, 'qlen': ql, 'ops': ['Req', 'Done', 'Timeout', 'Open'], 'max_active': mx + ql + 1,
                  'max_reqs': 4 if tier == 'quick' else 5, 'open_mode': 'pending', 'ok_first': 1}, 7 if tier == 'quick' else 8))
+  # requests that arrive while the pool's own Open() is still waiting for its first (warm-up) connection
+  for (mn, mx, ql) in ([(1, 1, 2)] if tier == 'quick' else [(1, 1, 2), (1, 2, 2), (0, 1, 2)]):
+    out.append(('warm-up connection still opening min=%d max=%d qlen=%d' % (mn, mx, ql),
+                {'min': mn, 'max': mx, 'qlen': ql, 'ops': ['Req', 'Done', 'Timeout', 'Open'], 'max_active': mx + ql + 1,
+                 'max_reqs': 4, 'open_mode': 'pending', 'ok_first': 0}, 7 if tier == 'quick' else 8))
   # a consumer that re-enters the pool from the callback that fails a queued request when the pool closes
   for (mn, mx, ql) in ([(0, 1, 2), (1, 2, 2)] if tier == 'quick' else [(0, 1, 2), (1, 2, 2), (0, 2, 3), (1, 1, 3)]):
     out.append(('re-entrant consumer min=%d max=%d qlen=%d' % (mn, mx, ql),
